@@ -71,7 +71,10 @@ type c05Case struct {
 	LJH22 bool      `json:"ljh22"`
 	LJH3  bool      `json:"ljh3"`
 	OFF   bool      `json:"off"`
-	Ops   []c05Op   `json:"ops"`
+	// PrePause: a PAUSE arrived while nothing was being written (legal); starting to write must lift it,
+	// as every Set* does and as the reported writing state says after START
+	PrePause bool    `json:"pre_pause,omitempty"`
+	Ops      []c05Op `json:"ops"`
 }
 
 func c05GenName(t *rapid.T, label string) string {
@@ -169,6 +172,7 @@ func c05Gen(t *rapid.T) c05Case {
 	c.P = c05GenParams(t)
 	mask := rapid.IntRange(1, 7).Draw(t, "types")
 	c.LJH22, c.LJH3, c.OFF = mask&1 != 0, mask&2 != 0, mask&4 != 0
+	c.PrePause = rapid.IntRange(0, 4).Draw(t, "prepause") == 0
 	// records of other lengths (edge-multi short records, or lengths reconfigured elsewhere) may reach any publisher:
 	// LJH3 and OFF store them, LJH 2.2 cannot represent them and must leave them out
 	variable := (!c.LJH22 && !c.OFF) || rapid.IntRange(0, 3).Draw(t, "oddlengths") == 0
@@ -450,6 +454,9 @@ func c05Run(c c05Case) (v vVerdict) {
 		}
 	}()
 	var dp DataPublisher
+	if c.PrePause {
+		dp.SetPause(true)
+	}
 	offset := time.Unix(0, p.OffsetNs)
 	pixel := Pixel{X: p.PixX, Y: p.PixY, Name: p.PixName}
 	if c.LJH22 {
